@@ -28,9 +28,12 @@ def _apply(repo, rel, old, new):
     return out
 
 
-def _violations(repo, prop, overlay=None):
+def _violations(repo, prop, overlay=None, follow_renames=False):
     mod = importlib.import_module('sa.rules.' + prop.lower())
     model = Model(repo, overlay=overlay)
+    if overlay and follow_renames:
+        from .localfp import check_local_anchors
+        check_local_anchors(model, prop)
     ctx = Ctx(model, prop, 'quick')
     mod.run(ctx)
     ctx.check_floors()
@@ -337,6 +340,76 @@ def _auto_twin(args):
     return ('twin', name, 'silent', '')
 
 
+def apply_unified(repo, patch_text):
+    """apply a unified diff to the files under repo, in memory: {relpath: new source}, or None when a hunk does not
+    find its lines (the tree moved on)"""
+    import re
+    out = {}
+    files = re.split(r'^diff --git .*$', patch_text, flags=re.M)[1:]
+    for sec in files:
+        m = re.search(r'^\+\+\+ b/(\S+)', sec, flags=re.M)
+        if not m:
+            return None
+        rel = m.group(1)
+        path = os.path.join(repo, rel)
+        if rel in out:
+            lines = out[rel].split('\n')
+        elif os.path.exists(path):
+            with open(path, encoding='utf-8') as f:
+                lines = f.read().split('\n')
+        else:
+            lines = ['']
+        hunks = re.split(r'^@@ .*$', sec, flags=re.M)[1:]
+        heads = re.findall(r'^@@ -(\d+)(?:,\d+)? \+\d+(?:,\d+)? @@', sec, flags=re.M)
+        shift = 0
+        for head, h in zip(heads, hunks):
+            body = h.split('\n')[1:]
+            while body and body[-1] == '':
+                body.pop()
+            olds = [l[1:] for l in body if l[:1] in (' ', '-')]
+            news = [l[1:] for l in body if l[:1] in (' ', '+')]
+            at = int(head) - 1 + shift
+            cands = [i for i in range(len(lines) - len(olds) + 1) if lines[i:i + len(olds)] == olds]
+            if not cands:
+                return None
+            i = min(cands, key=lambda c: abs(c - at))
+            lines[i:i + len(olds)] = news
+            shift += len(news) - len(olds)
+        out[rel] = '\n'.join(lines)
+    return out
+
+
+def benign_patches():
+    d = os.path.join(os.path.dirname(os.path.dirname(os.path.abspath(__file__))), 'benign')
+    if not os.path.isdir(d):
+        return []
+    return sorted(os.path.join(d, x, 'patch.diff') for x in os.listdir(d)
+                  if os.path.exists(os.path.join(d, x, 'patch.diff')))
+
+
+def _benign_twin(args):
+    """a stored behaviour-preserving patch (benign/<id>/patch.diff, written by an independent sub-agent, DESIGN
+    section 18) applied in memory: the property's rules must report nothing they do not report without it"""
+    repo, prop, path, base = args
+    name = 'benign-' + os.path.basename(os.path.dirname(path))
+    try:
+        with open(path, encoding='utf-8') as f:
+            overlay = apply_unified(repo, f.read())
+        if overlay is None:
+            return ('twin', name, 'skipped', 'patch does not apply to this tree')
+        for rel, src in overlay.items():
+            compile(src, rel, 'exec')
+        v = _violations(repo, prop, overlay, follow_renames=True)
+    except AnalysisError as e:
+        return ('twin', name, 'alarm', 'ANALYSIS-ERROR: %s' % e)
+    except SyntaxError as e:
+        return ('twin', name, 'skipped', 'patched file does not compile: %s' % e)
+    new_v = v - base
+    if new_v:
+        return ('twin', name, 'alarm', 'twin reported %s' % sorted(new_v)[:3])
+    return ('twin', name, 'silent', '')
+
+
 def run_selftest(prop, repo='/repo', seed=0, jobs=None):
     mod = importlib.import_module('sa.rules.' + prop.lower())
     mutants = list(getattr(mod, 'MUTANTS', []))
@@ -345,16 +418,19 @@ def run_selftest(prop, repo='/repo', seed=0, jobs=None):
     work = [(repo, prop, 'mutant', m, base) for m in mutants] + \
            [(repo, prop, 'twin', t, base) for t in twins]
     auto = [(repo, prop, name, base) for name in AUTO_TWINS]
+    benign = [(repo, prop, p, base) for p in benign_patches()]
     results = []
     jobs = jobs or min(16, os.cpu_count() or 1)
     if len(work) > 4 and jobs > 1:
         import multiprocessing as mp
         with mp.get_context('fork').Pool(jobs) as pool:
             ra = pool.map_async(_auto_twin, auto)
+            rb = pool.map_async(_benign_twin, benign)
             results = pool.map(_one, work)
             results += ra.get()
+            results += rb.get()
     else:
-        results = [_one(w) for w in work] + [_auto_twin(a) for a in auto]
+        results = [_one(w) for w in work] + [_auto_twin(a) for a in auto] + [_benign_twin(b) for b in benign]
     out = {'mutants_run': 0, 'mutants_detected': 0, 'mutants_skipped': 0,
            'twins_run': 0, 'twins_silent': 0, 'twins_skipped': 0,
            'failures': [], 'details': []}
